@@ -359,6 +359,52 @@ def de_rules(ctx, flavours):
         ok0 = not extra_v and bool(drv) and all(d in ('deserialize_seq', 'deserialize_tuple', 'deserialize_tuple_struct') for d in drv)
         out.append(Obl('DE0', de['q'], de['span'], 'the document is read as a sequence through visit_seq only', ok0,
                        'ok (%s)' % ', '.join(drv) if ok0 else 'further visitor entry points %s / driver calls %s are not covered by the reader rules' % (extra_v, drv)))
+        # DE6: a decoding error is an error of the whole read.  The Result of every SeqAccess::next_element is propagated (`?`) or,
+        # when matched by hand, its Err outcome ends in an Err return -- `if let Ok(Some(x)) = seq.next_element()` turns an ill-typed
+        # or truncated list into "no list" and the reader answers Ok
+        nel = [(bi, t) for bi, t in calls_in(vs) if t['callee'] == 'serde::de::SeqAccess::next_element']
+        why6 = []
+        if not nel:
+            why6.append('no next_element call found')
+        for nbi, nt in nel:
+            handled = False
+            for sb in sorted(cfg.reach):
+                st = vs['blocks'][sb]['term']
+                if st['k'] != 'switch':
+                    continue
+                term = pv.of_operand(st['op'])
+                if not (isinstance(term, tuple) and term and term[0] == 'discr'):
+                    continue
+                x = term[1]
+                cs = term_calls(x)
+                if not any(c[0] == 'call' and len(c) > 3 and c[3] == nbi for c in cs):
+                    continue
+                outer = cs[0] if cs else None
+                if outer and outer[1].endswith('Try>::branch') or (outer and outer[1] == 'std::ops::Try::branch'):
+                    handled = True      # `?`: the Break arm returns from_residual(err)
+                    continue
+                if outer and len(outer) > 3 and outer[3] == nbi and strip_payload(x) == outer:
+                    # a hand-written match on the Result itself
+                    names = None
+                    for s_ in vs['blocks'][sb]['stmts']:
+                        if s_['k'] == 'assign' and s_['rv']['k'] == 'discr' and s_['rv'].get('variants'):
+                            names = s_['rv']['variants']
+                    if names != ['Ok', 'Err']:
+                        continue
+                    handled = True
+                    okt = [tg for v, tg in st['targets'] if v == 0]
+                    errt = [tg for v, tg in st['targets'] if v == 1] or ([st['otherwise']] if vs['blocks'][st['otherwise']]['term']['k'] != 'unreachable' else [])
+                    errset = {bi_ for bi_, bb_ in enumerate(vs['blocks']) if
+                              any(s_['k'] == 'assign' and s_['dst']['l'] == 0 and not s_['dst']['p'] and s_['rv']['k'] == 'aggr' and s_['rv'].get('ak', '').endswith('Result::Err') for s_ in bb_['stmts']) or
+                              (bb_['term']['k'] == 'call' and bb_['term']['callee'].endswith('FromResidual::from_residual'))}
+                    for tg in errt:
+                        if tg in errset:
+                            continue
+                        if any(cfg.path_exists(tg, rb_, avoiding=errset) for rb_ in cfg.returns):
+                            why6.append('the Err outcome of next_element at %s can reach a return that is not an error' % nt['sp'])
+            if not handled:
+                why6.append('the Result of next_element at %s is neither propagated nor matched' % nt['sp'])
+        out.append(Obl('DE6', vs['q'], vs['span'], 'decoding errors of the element reads are propagated (%d reads)' % len(nel), not why6, '; '.join(why6) if why6 else 'ok'))
         # DE1
         why = []
         conn = [(bi, t) for bi, t in calls_in(vs) if t.get('local') and t['res'] in (fl + '::node::Node::connect', fl + '::node::Node::try_connect')]
